@@ -27,3 +27,23 @@ PROPS["C02"] = {
     "outside_claim": ["intermediate values beyond 2^255 (the SDK panics)", "more than 4 concurrently open payments per account"],
     "assumptions": ["sdk.Coin code is executed from source on top of the integer model", "one denomination"],
 }
+
+C19_VALIDATE = ["Harness_C19_g0", "Harness_C19_g1u0", "Harness_C19_g1u1", "Harness_C19_g1u2", "Harness_C19_g2u1",
+                "Harness_C19_version", "Harness_C19_maxgroups", "Harness_C19_maxunits", "Harness_C19_nilunits"]
+PROPS["C19"] = {
+    "jobs": [{
+        "pkg": "x/deployment/types",
+        "files": ["harness/C19/validate.go"],
+        "quick": C19_VALIDATE,
+        "thorough": C19_VALIDATE + ["Harness_C19_g2u2", "Harness_C19_g3u1"],
+        "opts": {"timeout": 20000},
+        "reach": {h: ["accepted", "rejected"] for h in ["Harness_C19_g1u1", "Harness_C19_g1u2", "Harness_C19_g2u1"]},
+    }],
+    "bounds": {
+        "quick": "group count 0,1,2 with 0..2 symbolic units each (cpu/memory/storage/price unbounded integers incl. negative and >2^64, count any uint32, 3 denoms, names empty or 1 symbolic byte); version length 0/31/32/33; MaxGroupCount and MaxGroupCount+1 groups, MaxGroupUnits and MaxGroupUnits+1 units with concrete valid content; nil cpu/memory/storage",
+        "thorough": "as quick plus 2 groups x 2 units and 3 groups x 1 unit",
+    },
+    "stubs": COMMON_STUBS + ["bech32 address strings -> bijection 'addr:'+20 bytes", "sdk.ValidateDenom -> native regexp on concrete denoms"],
+    "outside_claim": ["attribute lists inside resource units (empty here)", "placement requirements (C08)"],
+    "assumptions": ["ValidateBasic runs before the handler (SDK ante handler)", "a panic during validation rejects the transaction"],
+}
